@@ -56,11 +56,11 @@ pub fn doc_html(body: &[N]) -> String {
 pub struct Feat {
     pub tables: bool, pub ids: bool, pub links: bool, pub pre: bool, pub imgs: bool, pub wide: bool, pub zero: bool,
     pub lists: bool, pub quotes: bool, pub heads: bool, pub dl: bool, pub inline: bool, pub strike: bool, pub br: bool,
-    pub colspan: bool, pub nested_tables: bool, pub sup: bool, pub unique: bool, pub maxdepth: u32,
+    pub colspan: bool, pub nested_tables: bool, pub sup: bool, pub unique: bool, pub linky: bool, pub maxdepth: u32,
 }
 impl Feat {
     pub fn all() -> Feat { Feat { tables: true, ids: false, links: true, pre: true, imgs: true, wide: true, zero: true, lists: true, quotes: true,
-        heads: true, dl: true, inline: true, strike: true, br: true, colspan: true, nested_tables: true, sup: false, unique: true, maxdepth: 3 } }
+        heads: true, dl: true, inline: true, strike: true, br: true, colspan: true, nested_tables: true, sup: false, unique: true, linky: false, maxdepth: 3 } }
     pub fn notables() -> Feat { Feat { tables: false, colspan: false, nested_tables: false, ..Feat::all() } }
 }
 
@@ -107,7 +107,7 @@ impl<'a> G<'a> {
     pub fn inline(&mut self, depth: u32) -> N {
         let f = self.f;
         loop {
-            let k = if depth > f.maxdepth + 1 { 0 } else { self.r.below(14) };
+            let k = if depth > f.maxdepth + 1 { 0 } else if f.linky && !self.in_a && self.r.chance(1, 3) { 10 } else { self.r.below(14) };
             let mut n = match k {
                 0..=4 => return N::T(self.text()),
                 5 if f.br => N::el("br", vec![]),
